@@ -59,30 +59,61 @@ Proof.
   - exact IH.
 Qed.
 
+Lemma live_count_le_length hs : live_count hs <= Z.of_nat (length hs).
+Proof.
+  unfold live_count. induction hs as [|y t IH]; [cbn; lia|].
+  cbn [filter]. destruct (undropped y); cbn [length]; lia.
+Qed.
+
+Lemma live_count_pos hs h : undropped (hget hs h) = true -> 1 <= live_count hs.
+Proof.
+  intros Hu. pose proof (live_count_drop hs h Hu). pose proof (live_count_nonneg (hset hs h HDead)). lia.
+Qed.
+
 (* ------------------------------------------------------------------- mpsc *)
 Definition mrun := run mpsc_step mpsc_init.
 Definition mtrace := trace mpsc_step mpsc_init.
 
 Ltac mpsc_cases s o :=
-  destruct s as [[d wk cl] hs rc]; destruct o as [h v|h|h|pw|];
-  unfold mpsc_step, mpsc_send_body, mpsc_poll_body; cbn [m_in m_senders m_recv mi_data mi_waker mi_closed].
+  destruct s as [[d wk cl cnt] hs rc]; destruct o as [h v|h|h|pw|];
+  unfold mpsc_step, mpsc_send_body, mpsc_clone_body, mpsc_drop_body, mpsc_poll_body;
+  cbn [m_in m_senders m_recv mi_data mi_waker mi_closed mi_count].
 
-Lemma mpsc_never_closed_step s o :
-  mi_closed (m_in s) = false -> mi_closed (m_in (fst (mpsc_step s o))) = false.
+(* sender_count is the number of sender handles not yet dropped, and the channel is closed
+   exactly when that number is zero *)
+Definition mpsc_cinv (s : mpsc) : Prop :=
+  mi_count (m_in s) = live_count (m_senders s) /\ mi_closed (m_in s) = (mi_count (m_in s) =? 0).
+
+Lemma mpsc_cinv_step s o : mpsc_cinv s -> mpsc_cinv (fst (mpsc_step s o)).
 Proof.
-  mpsc_cases s o; intros ->.
-  - destruct (hget hs h); reflexivity.
-  - destruct (hget hs h); reflexivity.
-  - destruct (undropped (hget hs h)); reflexivity.
-  - destruct rc; [destruct d|]; reflexivity.
-  - destruct rc; reflexivity.
+  unfold mpsc_cinv. mpsc_cases s o; intros [Hc Hcl].
+  - destruct (hget hs h); cbn; auto. destruct cl; cbn; auto.
+  - destruct (hget hs h) eqn:Hh; cbn; auto.
+    destruct (cnt + 1 <=? u64_max); cbn; auto.
+    assert (Hu : undropped (hget hs h) = true) by (rewrite Hh; reflexivity).
+    pose proof (live_count_pos hs h Hu). rewrite live_count_app. split; [lia|].
+    rewrite Hcl. transitivity false; [|symmetry]; apply Z.eqb_neq; lia.
+  - destruct (undropped (hget hs h)) eqn:Hu; cbn; auto.
+    pose proof (live_count_drop hs h Hu) as Hd. pose proof (live_count_nonneg (hset hs h HDead)).
+    destruct (0 <=? cnt - 1) eqn:Hz; cbn.
+    + destruct (cnt - 1 =? 0) eqn:E; cbn; split; try lia.
+      rewrite E, Hcl. apply Z.leb_le in Hz. apply Z.eqb_neq. lia.
+    + apply Z.leb_gt in Hz. lia.
+  - destruct rc; [destruct d; [destruct cl|]|]; cbn; auto.
+  - destruct rc; cbn; auto.
 Qed.
 
-Lemma mpsc_never_closed ops : mi_closed (m_in (mrun ops)) = false.
+Lemma mpsc_cinv_run ops : mpsc_cinv (mrun ops).
 Proof.
-  induction ops as [|o ops IH] using rev_ind; [reflexivity|].
-  unfold mrun in *. rewrite run_snoc. apply mpsc_never_closed_step, IH.
+  induction ops as [|o ops IH] using rev_ind; [split; reflexivity|].
+  unfold mrun in *. rewrite run_snoc. apply mpsc_cinv_step, IH.
 Qed.
+
+Lemma mpsc_count ops : mi_count (m_in (mrun ops)) = live_count (m_senders (mrun ops)).
+Proof. apply mpsc_cinv_run. Qed.
+
+Lemma mpsc_closed_iff ops : mi_closed (m_in (mrun ops)) = all_dropped (m_senders (mrun ops)).
+Proof. rewrite all_dropped_count, <- mpsc_count. apply mpsc_cinv_run. Qed.
 
 (* one step keeps "received ++ stored = sent" *)
 Lemma mpsc_vals_step s o R :
@@ -92,8 +123,10 @@ Proof.
   mpsc_cases s o; cbn [recv_of sent_of].
   - destruct (hget hs h); cbn; rewrite ?app_nil_r; try reflexivity.
     destruct cl; cbn; rewrite ?app_nil_r, ?app_assoc; reflexivity.
-  - destruct (hget hs h); cbn; rewrite ?app_nil_r; reflexivity.
-  - destruct (undropped (hget hs h)); cbn; rewrite ?app_nil_r; reflexivity.
+  - destruct (hget hs h); cbn; rewrite ?app_nil_r; try reflexivity.
+    destruct (cnt + 1 <=? u64_max); cbn; rewrite ?app_nil_r; reflexivity.
+  - destruct (undropped (hget hs h)); cbn; rewrite ?app_nil_r; try reflexivity.
+    destruct (0 <=? cnt - 1); [destruct (cnt - 1 =? 0)|]; cbn; rewrite ?app_nil_r; reflexivity.
   - destruct rc; [destruct d as [|x t]; [destruct cl|]|]; cbn; rewrite ?app_nil_r; try reflexivity.
     rewrite <- app_assoc. reflexivity.
   - destruct rc; cbn; rewrite ?app_nil_r; reflexivity.
@@ -114,15 +147,20 @@ Lemma mpsc_delivers ops w v rest :
   o_ret (snd (mpsc_step (mrun ops) (Poll w))) = RReady v.
 Proof.
   intros Hr Hs. rewrite <- mpsc_fifo_exactly_once in Hs. apply app_inv_head in Hs.
-  destruct (mrun ops) as [[d wk cl] hs rc]. cbn in *. subst. reflexivity.
+  destruct (mrun ops) as [[d wk cl cnt] hs rc]. cbn in *. subst. reflexivity.
 Qed.
 
+(* a live handle keeps the channel open: its sends are accepted *)
 Lemma mpsc_send_accepted ops h v :
   hget (m_senders (mrun ops)) h = HLive ->
   o_ret (snd (mpsc_step (mrun ops) (Send h v))) = RUnit.
 Proof.
-  intros Hh. pose proof (mpsc_never_closed ops) as Hc.
-  destruct (mrun ops) as [[d wk cl] hs rc]. cbn in *. rewrite Hh, Hc. reflexivity.
+  intros Hh. destruct (mpsc_cinv_run ops) as [Hc Hcl].
+  assert (Hu : undropped (hget (m_senders (mrun ops)) h) = true) by (rewrite Hh; reflexivity).
+  pose proof (live_count_pos _ _ Hu) as Hpos.
+  destruct (mrun ops) as [[d wk cl cnt] hs rc].
+  unfold mpsc_step, mpsc_send_body. cbn [m_in m_senders m_recv mi_data mi_waker mi_closed mi_count] in *.
+  rewrite Hh, Hcl. replace (cnt =? 0) with false by (symmetry; apply Z.eqb_neq; lia). reflexivity.
 Qed.
 
 (* parked on an idle channel *)
@@ -132,7 +170,8 @@ Definition mpsc_parked (w : nat) (s : mpsc) : Prop :=
 Lemma mpsc_pending_parks s w :
   o_ret (snd (mpsc_step s (Poll w))) = RPending -> mpsc_parked w (fst (mpsc_step s (Poll w))).
 Proof.
-  destruct s as [[d wk cl] hs rc]. unfold mpsc_parked. cbn.
+  destruct s as [[d wk cl cnt] hs rc]. unfold mpsc_parked, mpsc_step, mpsc_poll_body.
+  cbn [m_in m_senders m_recv mi_data mi_waker mi_closed mi_count].
   destruct rc; [destruct d; [destruct cl|]|]; cbn; intros H; try discriminate. auto.
 Qed.
 
@@ -142,8 +181,9 @@ Lemma mpsc_parked_step s o w :
 Proof.
   unfold mpsc_parked. mpsc_cases s o; intros (-> & -> & ->) Hp; try discriminate.
   - destruct (hget hs h); cbn; auto.
-  - destruct (hget hs h); cbn; auto.
+  - destruct (hget hs h); cbn; auto. destruct (cnt + 1 <=? u64_max); cbn; auto.
   - destruct (undropped (hget hs h)); cbn; auto.
+    destruct (0 <=? cnt - 1); [destruct (cnt - 1 =? 0)|]; cbn; auto.
   - destruct rc; cbn; auto.
 Qed.
 
@@ -162,7 +202,8 @@ Qed.
 Lemma mpsc_parked_not_ready s w w' :
   mpsc_parked w s -> is_ready (o_ret (snd (mpsc_step s (Poll w')))) = false.
 Proof.
-  destruct s as [[d wk cl] hs rc]. unfold mpsc_parked. cbn. intros (-> & -> & ->).
+  destruct s as [[d wk cl cnt] hs rc]. unfold mpsc_parked, mpsc_step, mpsc_poll_body.
+  cbn [m_in m_senders m_recv mi_data mi_waker mi_closed mi_count]. intros (-> & -> & ->).
   destruct rc; reflexivity.
 Qed.
 
@@ -189,18 +230,71 @@ Lemma mpsc_send_wakes_parked pre w mid h v :
 Proof.
   intros s1 Hp Hn Hw Hs. subst s1. apply mpsc_pending_parks in Hp.
   destruct (mpsc_parked_run w mid _ Hp Hn) as [H|H]; [|contradiction].
-  destruct (run mpsc_step _ mid) as [[d wk cl] hs rc].
-  destruct H as (H1 & H2 & H3). cbn in *. subst.
-  destruct (nth h hs HDead); cbn in *; try discriminate. reflexivity.
+  destruct (run mpsc_step _ mid) as [[d wk cl cnt] hs rc].
+  destruct H as (H1 & H2 & H3).
+  unfold mpsc_step, mpsc_send_body in *. cbn [m_in m_senders m_recv mi_data mi_waker mi_closed mi_count] in *.
+  subst. destruct (hget hs h); cbn in *; try discriminate. reflexivity.
 Qed.
 
-(* disconnection: never reported *)
-Lemma mpsc_never_reports_closed ops w :
-  o_ret (snd (mpsc_step (mrun ops) (Poll w))) <> RClosed.
+(* disconnection: reported exactly when every sender handle is dropped and the queue is empty *)
+Lemma mpsc_disconnect_iff ops w :
+  m_recv (mrun ops) = true ->
+  (o_ret (snd (mpsc_step (mrun ops) (Poll w))) = RClosed <->
+   all_dropped (m_senders (mrun ops)) = true /\ recv_vals (mtrace ops) = sent_vals (mtrace ops)).
 Proof.
-  pose proof (mpsc_never_closed ops) as Hc.
-  destruct (mrun ops) as [[d wk cl] hs rc]. cbn in *. subst.
-  destruct rc; [destruct d|]; cbn; discriminate.
+  intros Hr. rewrite <- mpsc_closed_iff, <- mpsc_fifo_exactly_once.
+  destruct (mrun ops) as [[d wk cl cnt] hs rc].
+  unfold mpsc_step, mpsc_poll_body. cbn [m_in m_senders m_recv mi_data mi_waker mi_closed mi_count] in *.
+  subst rc. destruct d as [|x t].
+  - rewrite app_nil_r. destruct cl; cbn [fst snd o_ret]; split; intros H;
+      try discriminate; try (destruct H; discriminate); auto.
+  - cbn [fst snd o_ret]. split; [discriminate|]. intros [_ H]. exfalso.
+    apply (f_equal (@length Z)) in H. rewrite app_length in H. cbn in H. lia.
+Qed.
+
+Lemma mpsc_senders_length ops : (length (m_senders (mrun ops)) <= 1 + length ops)%nat.
+Proof.
+  induction ops as [|o ops IH] using rev_ind; [cbn; lia|].
+  unfold mrun in *. rewrite run_snoc, app_length. cbn [length].
+  revert IH. generalize (run mpsc_step mpsc_init ops) as s. intros s.
+  mpsc_cases s o; intros IH.
+  - destruct (hget hs h); [destruct cl| |]; cbn; lia.
+  - destruct (hget hs h); cbn; try lia. destruct (cnt + 1 <=? u64_max); cbn; rewrite ?app_length; cbn; lia.
+  - destruct (undropped (hget hs h)); cbn; try lia.
+    destruct (0 <=? cnt - 1); [destruct (cnt - 1 =? 0)|]; cbn; rewrite hset_length; lia.
+  - destruct rc; [destruct d; [destruct cl|]|]; cbn; lia.
+  - destruct rc; cbn; lia.
+Qed.
+
+Lemma mpsc_step_no_panic s o :
+  mi_count (m_in s) = live_count (m_senders s) -> mi_count (m_in s) < u64_max ->
+  o_ret (snd (mpsc_step s o)) <> RPanic.
+Proof.
+  mpsc_cases s o; intros Hc Hb.
+  - destruct (hget hs h); [destruct cl| |]; cbn; discriminate.
+  - destruct (hget hs h); cbn; try discriminate.
+    destruct (cnt + 1 <=? u64_max) eqn:E; cbn; try discriminate. apply Z.leb_gt in E. lia.
+  - destruct (undropped (hget hs h)) eqn:Hu; cbn; try discriminate.
+    pose proof (live_count_drop hs h Hu). pose proof (live_count_nonneg (hset hs h HDead)).
+    destruct (0 <=? cnt - 1) eqn:E; [destruct (cnt - 1 =? 0)|]; cbn; try discriminate.
+    apply Z.leb_gt in E. lia.
+  - destruct rc; [destruct d; [destruct cl|]|]; cbn; discriminate.
+  - destruct rc; cbn; discriminate.
+Qed.
+
+Lemma mpsc_no_panic ops :
+  Z.of_nat (length ops) < u64_max -> panics (mtrace ops) = false.
+Proof.
+  induction ops as [|o ops IH] using rev_ind; [reflexivity|].
+  rewrite app_length. cbn [length]. intros Hb.
+  unfold mtrace in *. rewrite trace_snoc. unfold panics in *. rewrite existsb_app.
+  apply orb_false_iff. split; [apply IH; lia|].
+  cbn [existsb orb snd]. rewrite orb_false_r.
+  pose proof (mpsc_step_no_panic (mrun ops) o (mpsc_count ops)) as H.
+  pose proof (mpsc_senders_length ops). pose proof (live_count_le_length (m_senders (mrun ops))).
+  rewrite mpsc_count in H. unfold mrun in *.
+  destruct (o_ret (snd (mpsc_step (run mpsc_step mpsc_init ops) o))); try reflexivity.
+  exfalso. apply H; [lia|reflexivity].
 Qed.
 
 (* ----------------------------------------------------------- notification *)
@@ -367,12 +461,6 @@ Proof.
     destruct (0 <=? cnt - 1); [destruct (cnt - 1 =? 0)|]; cbn; rewrite hset_length; lia.
   - destruct rc; [destruct nf; [|destruct (cnt =? 0)]|]; cbn; lia.
   - destruct rc; cbn; lia.
-Qed.
-
-Lemma live_count_le_length hs : live_count hs <= Z.of_nat (length hs).
-Proof.
-  unfold live_count. induction hs as [|y t IH]; [cbn; lia|].
-  cbn [filter]. destruct (undropped y); cbn [length]; lia.
 Qed.
 
 Lemma notif_step_no_panic s o :
@@ -562,94 +650,110 @@ Proof. destruct p; reflexivity. Qed.
 Lemma all_dropped_app_live hs : all_dropped (hs ++ [HLive]) = false.
 Proof. unfold all_dropped. rewrite forallb_app. cbn. apply andb_false_r. Qed.
 
-Definition mrel (s : mpsc) (sp : spec) : Prop :=
-  sp_queue sp = mi_data (m_in s) /\ sp_senders sp = m_senders s /\ sp_recv sp = m_recv s /\
-  mi_closed (m_in s) = false /\
-  (forall w, sp_parked sp = Some w -> mi_waker (m_in s) = Some w /\ mi_data (m_in s) = []).
-
 Ltac spec_unfold :=
-  unfold spec_step, enabled, no_sleeper, spec_ready, disc_counts, enq;
+  unfold spec_step, enabled, no_sleeper, spec_ready, enq;
   cbn [sp_queue sp_senders sp_recv sp_parked o_ret o_woke fst snd skip].
 
-Lemma mpsc_sim_step strict s sp o :
-  mrel s sp -> (strict = true -> mpsc_defect_event s o = false) ->
-  exists sp', spec_step KMpsc strict sp (o, snd (mpsc_step s o)) = Some sp'
+Ltac simcbn :=
+  cbn [fst snd sp_queue sp_senders sp_recv sp_parked
+       m_in m_senders m_recv mi_data mi_waker mi_closed mi_count
+       n_in n_senders n_recv ni_notified ni_waker ni_count].
+Ltac simfin Hp :=
+  eexists; split; [reflexivity|]; simcbn; repeat split; intros; auto; try congruence; try lia;
+  try (eapply Hp; eauto).
+
+(* ------------------------------------------------------------------- mpsc *)
+Definition mrel (s : mpsc) (sp : spec) : Prop :=
+  sp_queue sp = mi_data (m_in s) /\ sp_senders sp = m_senders s /\ sp_recv sp = m_recv s /\
+  mi_count (m_in s) = live_count (m_senders s) /\
+  mi_closed (m_in s) = (mi_count (m_in s) =? 0) /\
+  (forall w, sp_parked sp = Some w ->
+     mi_waker (m_in s) = Some w /\ mi_data (m_in s) = [] /\ 0 < mi_count (m_in s)).
+
+Lemma mpsc_sim_step s sp o :
+  mrel s sp -> mi_count (m_in s) < u64_max ->
+  exists sp', spec_step KMpsc sp (o, snd (mpsc_step s o)) = Some sp'
               /\ mrel (fst (mpsc_step s o)) sp'.
 Proof.
   destruct sp as [q ss r p]. unfold mrel. cbn [sp_queue sp_senders sp_recv sp_parked].
-  intros (Hq & Hss & Hr & Hc & Hp) Hd. revert Hq Hss Hr Hc Hp Hd.
-  unfold mpsc_defect_event.
-  mpsc_cases s o; intros -> -> -> -> Hp Hd; spec_unfold.
-  - destruct (hget hs h); cbn [is_live negb fst snd skip o_ret o_woke];
-      try (eexists; split; [reflexivity|]; cbn; auto; fail).
+  intros (Hq & Hss & Hr & Hc & Hcl & Hp) Hb. revert Hq Hss Hr Hc Hcl Hp Hb.
+  mpsc_cases s o; intros -> -> -> Hc Hcl Hp Hb; spec_unfold.
+  - destruct (hget hs h) eqn:Hh; cbn [is_live negb fst snd skip o_ret o_woke];
+      try (simfin Hp; fail).
+    assert (Hu : undropped (hget hs h) = true) by (rewrite Hh; reflexivity).
+    pose proof (live_count_pos hs h Hu) as Hpos.
+    assert (cl = false) as -> by (rewrite Hcl; apply Z.eqb_neq; lia).
+    cbn [fst snd o_ret o_woke ret_eqb]. destruct p as [w|].
+    + destruct (Hp w eq_refl) as (-> & -> & _). cbn [wake]. rewrite unpark_self. simfin Hp.
+    + cbn [unpark]. simfin Hp.
+  - destruct (hget hs h) eqn:Hh; cbn [is_live negb fst snd skip o_ret o_woke];
+      try (simfin Hp; fail).
+    assert (Hu : undropped (hget hs h) = true) by (rewrite Hh; reflexivity).
+    pose proof (live_count_pos hs h Hu) as Hpos.
+    destruct (cnt + 1 <=? u64_max) eqn:E; [|apply Z.leb_gt in E; lia].
+    cbn [fst snd o_ret o_woke ret_eqb]. rewrite unpark_nil.
+    assert (Hcl' : cl = (cnt + 1 =? 0)).
+    { rewrite Hcl. transitivity false; [|symmetry]; apply Z.eqb_neq; lia. }
     destruct p as [w|].
-    + destruct (Hp w eq_refl) as [-> ->]. cbn [wake]. rewrite unpark_self. cbn.
-      eexists; split; [reflexivity|]. cbn. repeat split; auto. discriminate.
-    + cbn. destruct (d ++ [v]) eqn:E; (eexists; split; [reflexivity|]; cbn; repeat split; auto; discriminate).
-  - destruct (hget hs h); cbn [is_live negb fst snd skip o_ret o_woke];
-      try (eexists; split; [reflexivity|]; cbn; auto; fail).
-    rewrite unpark_nil. cbn [ret_eqb]. destruct p as [w|].
-    + destruct (Hp w eq_refl) as [-> ->]. rewrite all_dropped_app_live, andb_false_r, andb_false_r.
-      eexists; split; [reflexivity|]. cbn. repeat split; auto; congruence.
-    + eexists; split; [reflexivity|]. cbn. repeat split; auto; discriminate.
+    + destruct (Hp w eq_refl) as (-> & -> & Hpos'). rewrite all_dropped_app_live, !andb_false_r.
+      simfin Hp; rewrite live_count_app; lia.
+    + simfin Hp; rewrite live_count_app; lia.
   - destruct (undropped (hget hs h)) eqn:Hu; cbn [is_live negb fst snd skip o_ret o_woke];
-      try (eexists; split; [reflexivity|]; cbn; auto; fail).
-    rewrite unpark_nil. cbn [ret_eqb]. destruct p as [w|].
-    + destruct (Hp w eq_refl) as [-> ->]. cbn [is_nil is_some] in Hd.
-      rewrite !andb_true_r in Hd.
-      destruct strict; cbn [andb].
-      * rewrite (Hd eq_refl).
-        eexists; split; [reflexivity|]; cbn; repeat split; auto; congruence.
-      * rewrite andb_false_r. eexists; split; [reflexivity|]; cbn; repeat split; auto; congruence.
-    + eexists; split; [reflexivity|]. cbn. repeat split; auto; discriminate.
+      try (simfin Hp; fail).
+    pose proof (live_count_drop hs h Hu) as Hd. pose proof (live_count_nonneg (hset hs h HDead)) as Hnn.
+    destruct (0 <=? cnt - 1) eqn:E; [|apply Z.leb_gt in E; lia].
+    destruct (cnt - 1 =? 0) eqn:E0; cbn [fst snd o_ret o_woke ret_eqb].
+    + assert (E0' := E0). apply Z.eqb_eq in E0'. destruct p as [w|].
+      * destruct (Hp w eq_refl) as (-> & -> & Hpos). cbn [wake]. rewrite unpark_self. simfin Hp.
+      * cbn [unpark]. simfin Hp.
+    + assert (Hcl' : cl = (cnt - 1 =? 0)).
+      { rewrite E0, Hcl. apply Z.leb_le in E. apply Z.eqb_neq. lia. }
+      rewrite unpark_nil. destruct p as [w|].
+      * destruct (Hp w eq_refl) as (-> & -> & Hpos).
+        rewrite all_dropped_count, Hd, <- Hc, E0, !andb_false_r.
+        apply Z.eqb_neq in E0. simfin Hp.
+      * simfin Hp.
   - destruct rc; cbn [negb fst snd skip o_ret o_woke];
-      try (eexists; split; [reflexivity|]; cbn; auto; fail).
-    destruct d as [|x t]; cbn [fst snd o_ret o_woke].
-    + cbn [is_nil] in Hd. rewrite andb_true_r in Hd. cbn [andb] in Hd.
-      destruct (all_dropped hs).
-      * destruct strict; [specialize (Hd eq_refl); discriminate|].
-        eexists; split; [reflexivity|]; cbn; repeat split; auto; congruence.
-      * cbn [ret_eqb]. eexists; split; [reflexivity|]; cbn; repeat split; auto; congruence.
-    + cbn [ret_eqb]. rewrite Z.eqb_refl.
-      eexists; split; [reflexivity|]; cbn; repeat split; auto; discriminate.
-  - destruct rc; cbn [negb fst snd skip o_ret o_woke ret_eqb];
-      (eexists; split; [reflexivity|]; cbn; repeat split; intros; auto; try congruence; eapply Hp; eauto).
+      try (simfin Hp; fail).
+    destruct d as [|x t]; cbn [fst snd o_ret o_woke ret_eqb].
+    + rewrite all_dropped_count, <- Hc, <- Hcl. destruct cl eqn:Ecl; cbn [fst snd o_ret o_woke ret_eqb].
+      * simfin Hp.
+      * symmetry in Hcl. apply Z.eqb_neq in Hcl. pose proof (live_count_nonneg hs). simfin Hp.
+    + rewrite Z.eqb_refl. simfin Hp.
+  - destruct rc; cbn [negb fst snd skip o_ret o_woke ret_eqb]; simfin Hp.
 Qed.
 
-
-Lemma mpsc_sim_run strict : forall ops s sp,
-  mrel s sp -> (strict = true -> mpsc_known_from s ops = false) ->
-  exists sp', spec_run KMpsc strict sp (trace mpsc_step s ops) = Some sp'.
+Lemma mpsc_count_grows s o : mi_count (m_in (fst (mpsc_step s o))) <= mi_count (m_in s) + 1.
 Proof.
-  induction ops as [|o t IH]; intros s sp Hrel Hk; cbn [trace spec_run]; [eauto|].
-  destruct (mpsc_sim_step strict s sp o Hrel) as (sp1 & -> & Hrel1).
-  - intros Hs. specialize (Hk Hs). cbn [mpsc_known_from] in Hk. apply orb_false_iff in Hk. apply Hk.
-  - apply IH; [exact Hrel1|]. intros Hs. specialize (Hk Hs). cbn [mpsc_known_from] in Hk.
-    apply orb_false_iff in Hk. apply Hk.
+  mpsc_cases s o.
+  - destruct (hget hs h); [destruct cl| |]; cbn; lia.
+  - destruct (hget hs h); cbn; try lia. destruct (cnt + 1 <=? u64_max); cbn; lia.
+  - destruct (undropped (hget hs h)); cbn; try lia.
+    destruct (0 <=? cnt - 1); [destruct (cnt - 1 =? 0)|]; cbn; lia.
+  - destruct rc; [destruct d; [destruct cl|]|]; cbn; lia.
+  - destruct rc; cbn; lia.
+Qed.
+
+Lemma mpsc_sim_run : forall ops s sp,
+  mrel s sp -> mi_count (m_in s) + Z.of_nat (length ops) <= u64_max ->
+  exists sp', spec_run KMpsc sp (trace mpsc_step s ops) = Some sp'.
+Proof.
+  induction ops as [|o t IH]; intros s sp Hrel Hb; cbn [trace spec_run]; [eauto|].
+  cbn [length] in Hb.
+  destruct (mpsc_sim_step s sp o Hrel) as (sp1 & -> & Hrel1); [lia|].
+  apply IH; [exact Hrel1|]. pose proof (mpsc_count_grows s o). lia.
 Qed.
 
 Lemma mrel_init : mrel mpsc_init spec_init.
 Proof. unfold mrel. cbn. repeat split; intros; auto; discriminate. Qed.
 
-Lemma mpsc_oracle_relaxed ops : oracle KMpsc false (mtrace ops) = true.
+Lemma mpsc_oracle ops :
+  Z.of_nat (length ops) < u64_max -> oracle KMpsc (mtrace ops) = true.
 Proof.
-  unfold oracle, mtrace.
-  destruct (mpsc_sim_run false ops _ _ mrel_init) as (sp' & ->); [discriminate|reflexivity].
+  intros Hb. unfold oracle, mtrace.
+  destruct (mpsc_sim_run ops _ _ mrel_init) as (sp' & ->); [|reflexivity].
+  change (mi_count (m_in mpsc_init)) with 1. lia.
 Qed.
-
-Lemma mpsc_oracle_strict_unless_known ops :
-  mpsc_known_class ops = false -> oracle KMpsc true (mtrace ops) = true.
-Proof.
-  intros Hk. unfold oracle, mtrace.
-  destruct (mpsc_sim_run true ops _ _ mrel_init) as (sp' & ->); [intros _; exact Hk|reflexivity].
-Qed.
-
-Lemma mpsc_disconnect_refuted :
-  exists ops, mpsc_known_class ops = true /\ oracle KMpsc true (mtrace ops) = false /\
-    all_dropped (m_senders (mrun ops)) = true /\ m_recv (mrun ops) = true /\
-    sent_vals (mtrace ops) = [] /\
-    o_ret (snd (mpsc_step (mrun ops) (Poll 0%nat))) = RPending.
-Proof. exists [DropS 0%nat; Poll 0%nat]. vm_compute. repeat split; reflexivity. Qed.
 
 (* ----------------------------------------------------------- notification *)
 Definition nrel (s : notif) (sp : spec) : Prop :=
@@ -659,13 +763,9 @@ Definition nrel (s : notif) (sp : spec) : Prop :=
   (forall w, sp_parked sp = Some w ->
      ni_waker (n_in s) = Some w /\ ni_notified (n_in s) = false /\ 0 < ni_count (n_in s)).
 
-Ltac simfin Hp :=
-  eexists; split; [reflexivity|]; cbn; repeat split; intros; auto; try congruence; try lia;
-  try (eapply Hp; eauto).
-
-Lemma notif_sim_step strict s sp o :
+Lemma notif_sim_step s sp o :
   nrel s sp -> ni_count (n_in s) < u64_max ->
-  exists sp', spec_step KNotif strict sp (o, snd (notif_step s o)) = Some sp'
+  exists sp', spec_step KNotif sp (o, snd (notif_step s o)) = Some sp'
               /\ nrel (fst (notif_step s o)) sp'.
 Proof.
   destruct sp as [q ss r p]. unfold nrel. cbn [sp_queue sp_senders sp_recv sp_parked].
@@ -718,13 +818,13 @@ Proof.
   - destruct rc; cbn; lia.
 Qed.
 
-Lemma notif_sim_run strict : forall ops s sp,
+Lemma notif_sim_run : forall ops s sp,
   nrel s sp -> ni_count (n_in s) + Z.of_nat (length ops) <= u64_max ->
-  exists sp', spec_run KNotif strict sp (trace notif_step s ops) = Some sp'.
+  exists sp', spec_run KNotif sp (trace notif_step s ops) = Some sp'.
 Proof.
   induction ops as [|o t IH]; intros s sp Hrel Hb; cbn [trace spec_run]; [eauto|].
   cbn [length] in Hb.
-  destruct (notif_sim_step strict s sp o Hrel) as (sp1 & -> & Hrel1); [lia|].
+  destruct (notif_sim_step s sp o Hrel) as (sp1 & -> & Hrel1); [lia|].
   apply IH; [exact Hrel1|]. pose proof (notif_count_grows s o). lia.
 Qed.
 
@@ -732,10 +832,10 @@ Lemma nrel_init : nrel notif_init spec_init.
 Proof. unfold nrel. cbn. repeat split; intros; auto; discriminate. Qed.
 
 Lemma notif_oracle ops :
-  Z.of_nat (length ops) < u64_max -> oracle KNotif true (ntrace ops) = true.
+  Z.of_nat (length ops) < u64_max -> oracle KNotif (ntrace ops) = true.
 Proof.
   intros Hb. unfold oracle, ntrace.
-  destruct (notif_sim_run true ops _ _ nrel_init) as (sp' & ->); [|reflexivity].
+  destruct (notif_sim_run ops _ _ nrel_init) as (sp' & ->); [|reflexivity].
   change (ni_count (n_in notif_init)) with 1. lia.
 Qed.
 
@@ -753,9 +853,9 @@ Ltac osimfin Hp y :=
   try (exists y; cbn; repeat split; intros; auto; congruence);
   try (eapply Hp; eauto).
 
-Lemma oneshot_sim_step strict s sp o :
+Lemma oneshot_sim_step s sp o :
   orel s sp ->
-  exists sp', spec_step KOneshot strict sp (o, snd (oneshot_step s o)) = Some sp'
+  exists sp', spec_step KOneshot sp (o, snd (oneshot_step s o)) = Some sp'
               /\ orel (fst (oneshot_step s o)) sp'.
 Proof.
   destruct sp as [q ss r p]. unfold orel. cbn [sp_queue sp_senders sp_recv sp_parked].
@@ -786,11 +886,11 @@ Proof.
   - destruct rc; cbn [negb fst snd skip o_ret o_woke ret_eqb]; osimfin Hp x.
 Qed.
 
-Lemma oneshot_sim_run strict : forall ops s sp,
-  orel s sp -> exists sp', spec_run KOneshot strict sp (trace oneshot_step s ops) = Some sp'.
+Lemma oneshot_sim_run : forall ops s sp,
+  orel s sp -> exists sp', spec_run KOneshot sp (trace oneshot_step s ops) = Some sp'.
 Proof.
   induction ops as [|o t IH]; intros s sp Hrel; cbn [trace spec_run]; [eauto|].
-  destruct (oneshot_sim_step strict s sp o Hrel) as (sp1 & -> & Hrel1). apply IH, Hrel1.
+  destruct (oneshot_sim_step s sp o Hrel) as (sp1 & -> & Hrel1). apply IH, Hrel1.
 Qed.
 
 Lemma orel_init : orel oneshot_init spec_init.
@@ -799,85 +899,8 @@ Proof.
   exists HLive. repeat split; auto.
 Qed.
 
-Lemma oneshot_oracle ops : oracle KOneshot true (otrace ops) = true.
+Lemma oneshot_oracle ops : oracle KOneshot (otrace ops) = true.
 Proof.
-  unfold oracle, otrace. destruct (oneshot_sim_run true ops _ _ orel_init) as (sp' & ->). reflexivity.
+  unfold oracle, otrace. destruct (oneshot_sim_run ops _ _ orel_init) as (sp' & ->). reflexivity.
 Qed.
 
-(* the known class is EXACTLY the family rejected by the strict monitor *)
-Definition mrel2 (s : mpsc) (sp : spec) : Prop :=
-  mrel s sp /\
-  (mi_data (m_in s) <> [] -> mi_waker (m_in s) = None) /\
-  (m_recv s = true -> forall w, mi_waker (m_in s) = Some w -> sp_parked sp = Some w).
-
-Lemma mpsc_defect_rejected s sp o :
-  mrel2 s sp -> mpsc_defect_event s o = true ->
-  spec_step KMpsc true sp (o, snd (mpsc_step s o)) = None.
-Proof.
-  destruct sp as [q ss r p]. unfold mrel2, mrel. cbn [sp_queue sp_senders sp_recv sp_parked].
-  intros ((Hq & Hss & Hr & Hc & Hp) & He1 & He2). revert Hq Hss Hr Hc Hp He1 He2.
-  unfold mpsc_defect_event.
-  mpsc_cases s o; intros -> -> -> -> Hp He1 He2 Hd; try discriminate; spec_unfold.
-  - apply andb_prop in Hd as [Hd Hw]. apply andb_prop in Hd as [Hd Hn].
-    apply andb_prop in Hd as [Hd Ha]. apply andb_prop in Hd as [Hrc Hu].
-    subst rc. rewrite Hu. cbn [negb fst snd o_ret o_woke ret_eqb]. rewrite unpark_nil.
-    destruct d; [|discriminate]. destruct wk as [w|]; [|discriminate].
-    rewrite (He2 eq_refl w eq_refl). rewrite Ha. reflexivity.
-  - apply andb_prop in Hd as [Hd Hn]. apply andb_prop in Hd as [Hrc Ha]. subst rc.
-    destruct d; [|discriminate]. cbn [negb fst snd o_ret o_woke]. rewrite Ha. reflexivity.
-Qed.
-
-Lemma mpsc_sim_step2 s sp o :
-  mrel2 s sp -> mpsc_defect_event s o = false ->
-  exists sp', spec_step KMpsc true sp (o, snd (mpsc_step s o)) = Some sp'
-              /\ mrel2 (fst (mpsc_step s o)) sp'.
-Proof.
-  intros (Hrel & He1 & He2) Hd.
-  destruct (mpsc_sim_step true s sp o Hrel (fun _ => Hd)) as (sp' & Hs & Hrel').
-  exists sp'. split; [exact Hs|]. split; [exact Hrel'|].
-  revert Hs Hrel' He1 He2. clear Hd.
-  destruct sp as [q ss r p]. destruct Hrel as (Hq & Hss & Hr & Hc & Hp). revert Hq Hss Hr Hc Hp.
-  cbn [sp_queue sp_senders sp_recv sp_parked].
-  mpsc_cases s o; intros -> -> -> -> Hp; spec_unfold.
-  - destruct (hget hs h); cbn [is_live negb fst snd skip o_ret o_woke ret_eqb];
-      intros Hs _ He1 He2; cbn in *; try (inversion Hs; subst; cbn; split; auto; fail).
-    split; [reflexivity|]. intros _ w Hw. discriminate.
-  - destruct (hget hs h); cbn [is_live negb fst snd skip o_ret o_woke ret_eqb];
-      intros Hs _ He1 He2; cbn in *; try (inversion Hs; subst; cbn; split; auto; fail).
-    rewrite unpark_nil in Hs. split; [exact He1|]. intros Hrc w Hw. specialize (He2 Hrc w Hw). subst p.
-    destruct (rc && _) in Hs; inversion Hs; reflexivity.
-  - destruct (undropped (hget hs h)); cbn [is_live negb fst snd skip o_ret o_woke ret_eqb];
-      intros Hs _ He1 He2; cbn in *; try (inversion Hs; subst; cbn; split; auto; fail).
-    rewrite unpark_nil in Hs. split; [exact He1|]. intros Hrc w Hw. specialize (He2 Hrc w Hw). subst p.
-    destruct (rc && _) in Hs; inversion Hs; reflexivity.
-  - destruct rc; cbn [negb fst snd skip o_ret o_woke];
-      intros Hs _ He1 He2; try (inversion Hs; subst; cbn in *; split; auto; fail).
-    destruct d as [|x t]; cbn [fst snd o_ret o_woke m_in mi_data mi_waker m_recv] in *.
-    + split; [intros H; congruence|]. intros _ w Hw. inversion Hw; subst.
-      destruct (all_dropped hs); cbn in Hs; inversion Hs; reflexivity.
-    + assert (wk = None) as -> by (apply He1; discriminate).
-      split; [reflexivity|]. intros _ w Hw. discriminate.
-  - destruct rc; cbn [negb fst snd skip o_ret o_woke ret_eqb];
-      intros Hs _ He1 He2; inversion Hs; subst; cbn in *; split; auto. intros; discriminate.
-Qed.
-
-Lemma mpsc_known_rejected : forall ops s sp,
-  mrel2 s sp -> mpsc_known_from s ops = true ->
-  spec_run KMpsc true sp (trace mpsc_step s ops) = None.
-Proof.
-  induction ops as [|o t IH]; intros s sp Hrel Hk; [discriminate|].
-  cbn [mpsc_known_from] in Hk. cbn [trace spec_run].
-  destruct (mpsc_defect_event s o) eqn:Hd.
-  - rewrite (mpsc_defect_rejected s sp o Hrel Hd). reflexivity.
-  - cbn [orb] in Hk. destruct (mpsc_sim_step2 s sp o Hrel Hd) as (sp' & -> & Hrel').
-    apply IH; assumption.
-Qed.
-
-Lemma mpsc_known_class_exact ops :
-  oracle KMpsc true (mtrace ops) = negb (mpsc_known_class ops).
-Proof.
-  destruct (mpsc_known_class ops) eqn:Hk; cbn [negb].
-  - unfold oracle, mtrace. rewrite (mpsc_known_rejected ops mpsc_init spec_init); [reflexivity| |exact Hk].
-    split; [exact mrel_init|]. cbn. split; intros; congruence.
-  - apply mpsc_oracle_strict_unless_known, Hk.
-Qed.
